@@ -283,6 +283,25 @@ def _rref_one(op):
     return observe_render(tuple(op))
 
 
+def fork_map(fn, items):
+    """fn(item) for every item, each evaluated in a process of its own forked (through a lane that does nothing else) from the caller"""
+    import multiprocessing as mp
+    global _ref_one
+    saved = _ref_one
+    _ref_one = fn
+    try:
+        ctx = mp.get_context('fork')
+        lanes = [items[k::16] for k in range(16)]
+        with ctx.Pool(16) as pool:
+            res = pool.map(_lane, lanes, chunksize=1)
+    finally:
+        _ref_one = saved
+    out = [None] * len(items)
+    for k, lane in enumerate(res):
+        out[k::16] = lane
+    return out
+
+
 def render_references(ops):
     import multiprocessing as mp
     import mindsdb_sql.render.sqlalchemy_render  # noqa: F401   (warm imports only)
